@@ -486,9 +486,12 @@ def readback_problems(line, data, samples):
         if fld.id not in info or isinstance(data.infodata.get(fld), bool):
             continue
         val = data.infodata.get(fld)
-        if val is None or isinstance(val, str):
+        if val is None or isinstance(val, (str, dict)):
             continue
-        vals = [float(x) for x in rnp.atleast_1d(rnp.asarray(val, dtype=float))]
+        try:
+            vals = [float(x) for x in rnp.atleast_1d(rnp.asarray(val, dtype=float))]
+        except (TypeError, ValueError):
+            continue
         toks = info[fld.id].split(",")
         if len(toks) != len(vals) and not (len(vals) == 0 and toks == ["."]):
             problems.append(("readback", "INFO %s has %d values in the text, %d internally" % (fld.id, len(toks), len(vals))))
